@@ -223,6 +223,17 @@ func NewConfig(prop string, tier string, r *core.Rand) Config {
 	}
 	if prop == "C10" {
 		c.PCrash = []float64{0.05, 0.15}[r.Intn(2)] // "including restarts": also crashes at ABCI boundaries of set-changing blocks
+		if r.Chance(0.4) {
+			// "governance changes of the validator limits ... including restarts": many parameter proposals, most of them
+			// about the seat count and the minimum own stake, with restarts right after they take effect
+			c.KindW["proposal"], c.KindW["vote"] = 2.5, 5
+			c.NVals = r.Range(3, 5)
+			c.NActors = c.NVals + r.Range(3, 6)
+			c.Blocks = r.Range(24, 40)
+			if c.PRestartL == 0 {
+				c.PRestartL = 0.05
+			}
+		}
 	}
 	// swarm: in some worlds of any property the block producer itself serves mempool/query traffic
 	// (then differences show up against the model with precise attribution) next to a quiet follower
@@ -580,6 +591,13 @@ func (g *Generator) govOption() string {
 		// validation accepts, and what happens when two thirds of the validators adopt it is outside C09, S18)
 		key := []string{"gasPrice", "rewardPerPower", "minValidatorStake", "minDelegatorStake"}[g.r.Intn(4)]
 		return fmt.Sprintf(`{"%s":%s}`, key, bad)
+	}
+	if g.c.Property == "C10" && g.r.Chance(0.5) {
+		for _, f := range pool {
+			if (f.k == "maxValidatorCnt" || f.k == "minValidatorStake") && g.r.Chance(0.6) {
+				return fmt.Sprintf("{%q:%q}", f.k, f.v)
+			}
+		}
 	}
 	n := g.r.Range(1, 3)
 	perm := g.r.Perm(len(pool))[:n]
@@ -1200,7 +1218,7 @@ func (g *Generator) NextBlock(h int64) BlockStep {
 		}
 	}
 	// faults
-	if c.PRestartL > 0 && g.r.Chance(c.PRestartL) {
+	if c.PRestartL > 0 && (g.r.Chance(c.PRestartL) || (c.Property == "C10" && w.Probes.C["gov.params-changed"] > g.govChangedPrev && g.r.Chance(0.4))) {
 		st.Faults = append(st.Faults, Fault{Kind: "restart", Replica: 0, At: "end"})
 	}
 	govJustChanged := w.Probes.C["gov.params-changed"] > g.govChangedPrev
